@@ -282,7 +282,9 @@ class Env:
             elif kind == "toSchema":
                 before = sorted(cls._required)
                 try:
-                    structure_to_schema(cls, {})
+                    sch = structure_to_schema(cls, {})[0]
+                    if isinstance(sch, dict) and sch.get("type") == "object" and "required" in sch:
+                        res["schemaRequired"] = sorted(sch["required"])
                 finally:
                     res["required"] = sorted(cls._required)
                     res["wrote"] = res["required"] != before
